@@ -1,4 +1,5 @@
 """C09 - code generation and serialization are deterministic across processes."""
+import copy
 import json
 import os
 import shutil
@@ -88,12 +89,42 @@ def collision_doc(draw):
     return {"files": {"a.json": doc}, "root": "a.json", "collision": True}
 
 
+def retitled(doc, salt):
+    """The same document with every NESTED object schema titled differently (root untouched): anything the process
+    remembers about the first document's classes by name/shape would now be stale."""
+    names = ["Client", "Customer", "Gadget", "Part", "Thing_1", "Widget"]
+    count = [salt]
+
+    def visit(node, top):
+        if isinstance(node, list):
+            return [visit(x, False) for x in node]
+        if not isinstance(node, dict):
+            return node
+        out = {}
+        for k, v in node.items():
+            if k in ("enum", "const", "default"):
+                out[k] = copy.deepcopy(v)
+            else:
+                out[k] = visit(v, False)
+        if not top and out.get("type") == "object":
+            count[0] += 1
+            out["title"] = names[count[0] % len(names)]
+        return out
+
+    files = {name: visit(body, name == "a.json") for name, body in doc["files"].items()}
+    return {**{k: v for k, v in doc.items() if k != "files"}, "files": files, "variant_of_earlier": True}
+
+
 @st.composite
 def batches(draw):
     out = []
     for _ in range(BATCH):
-        if draw(st.integers(0, 2)) == 0:
+        r = draw(st.integers(0, 5))
+        if r <= 1:
             out.append(draw(collision_doc()))
+        elif r == 2 and out:
+            # a near-copy of an earlier member of the batch: same root, same shapes, other nested class names
+            out.append(retitled(draw(st.sampled_from(out)), draw(st.integers(0, 5))))
         else:
             out.append(draw(docs.documents(docs.DCfg())))
     return {"docs": out}
